@@ -72,9 +72,11 @@ def mkTop (k : Kind F) (name : String) (round : Nat) : Ind F :=
 
 def hasKey (name : String) (c : Candle F) : Bool := dhas name c.inds || dhas name c.subs
 
-/-- scan `range(len-1, 0, -1)` for the newest candle holding the key -/
+/-- scan `range(len-1, -1, -1)` for the newest candle holding the key -/
 def scanBack (name : String) (cs : List (Candle F)) : Nat → Nat
-  | 0 => 0
+  | 0 => match cs[0]? with
+    | some c => if hasKey name c then 1 else 0
+    | none => 0
   | j+1 => match cs[j+1]? with
     | some c => if hasKey name c then j + 2 else scanBack name cs j
     | none => scanBack name cs j
